@@ -62,8 +62,11 @@ prop("C10", [
 prop("C13", [
     dict(engine="verus", unit="dhcphandlers", fns=["handle_discover", "handle_request", "handle_pkt", "Pool::allocate_address"]),
     dict(engine="verus", unit="dhcpgetters"),
+    # "a request that matches no configured pool is not answered": which policies a request matches (all conditions of a policy must hold)
+    dict(engine="verus", unit="policy", fns=["check_policy", "check_policies", "apply_policy", "apply_policies"]),
     dict(POOL_B, checks=["allocate_address/C13"]),
-], explanation="dispatch on message type, foreign server-id refused before any pool access, errors leave the table unchanged, a reply touches only the row of yiaddr and echoes xid/chaddr/giaddr/flags",
+], explanation="dispatch on message type, foreign server-id refused before any pool access, errors leave the table unchanged, a reply touches only the row of yiaddr and echoes xid/chaddr/giaddr/flags; "
+               "a request is served from a policy only if every condition of that policy holds (unit policy), no policy => NoPolicyConfigured / NoLeasesConfigured, nothing written",
     assumptions=["ResponseOptions / DhcpOptions accessor contracts assumed in unit dhcphandlers (HashMap glue); the DhcpParse impls behind them are proved in unit dhcpgetters"])
 prop("C17", [
     dict(engine="verus", unit="raser", fns=["serialise_router_advertisement", "clamp_u16", "clamp_u32", "prefix_mask", "pref64_plc", "pref64_prefixlen",
@@ -89,7 +92,7 @@ prop("C18", [
     assumptions=["SQLite durability/atomicity of an autocommitted statement (kill-at-any-instant is NOT decided)", "DDL statements preserve rows (assumed; engine B bounded)"])
 prop("C19", [
     dict(engine="verus", unit="configleaf"),
-    dict(engine="verus", unit="dhcpranges", fns=["apply_subnet_hosts", "default_pool_hosts"]),
+    dict(engine="verus", unit="dhcpranges", fns=["apply_subnet_hosts", "default_pool_hosts", "apply_range_hosts"]),
     dict(engine="verus", unit="router", fns=["DnsRouteHandler::handle_query"]),
     dict(engine="kani", sets=["net_subnet", "config_prefix"]),
 ], explanation="leaf parsers total (no unwrap/index/overflow) for all inputs; values the loader can produce are safe for the handlers that consume them (prefix arithmetic, host ranges, empty forward route)",
